@@ -632,8 +632,19 @@ def run_executions(exe, args_of, total, out_path, timeout=900, env=None, max_res
         last_new = max([i for i, ln in enumerate(lines) if ln.startswith('{"e":"new"')] or [0])
         with open(out_path, "a") as f:
             f.write("".join(x + "\n" for x in lines[:last_new]))
-        deaths.append({"rc": rc, "err": err, "index": start + max(nnew - 1, 0), "lines": lines[last_new:]})
-        start += max(nnew, 1)
+        # harnesses that emit several executions per script (fault sweeps) say which script an execution belongs to
+        script = None
+        if lines and lines[last_new].startswith('{"e":"new"') and '"script":' in lines[last_new]:
+            try:
+                script = json.loads(lines[last_new]).get("script")
+            except ValueError:
+                script = None
+        if script is not None:
+            deaths.append({"rc": rc, "err": err, "index": script, "lines": lines[last_new:]})
+            start = script + 1
+        else:
+            deaths.append({"rc": rc, "err": err, "index": start + max(nnew - 1, 0), "lines": lines[last_new:]})
+            start += max(nnew, 1)
         if len(deaths) >= max_restarts:
             break
     if os.path.exists(tmp):
